@@ -25,3 +25,7 @@ def run(ctx, rep):
     check_note_duration(ctx, rd)
     ri = rep.rule("index-table", "TAP and FORCED are the file format's indices 6 and 5", floor=7)
     N.check_index_table(ri)
+    rch = rep.rule("chain", "file -> lines (read().splitlines(), utf-8-sig) -> framing -> section route -> dispatcher -> builders: every link "
+                            "hands the lines on unchanged", floor=10)
+    from .chain import check_chain
+    check_chain(ctx, rch, "instrument", strict=True)
